@@ -263,6 +263,8 @@ func (r *readerRun) concretise() []byte {
 				if n == 0 {
 					reason = []byte{0xff}
 				}
+			} else if f.Rs != "" && f.Rs != "ok" {
+				reason = reasonOfClass(f.Rs, n, wire.TextPay(p.Seed, 1000+i, n))
 			} else {
 				reason = wire.TextPay(p.Seed, 1000+i, n)
 				// keep valid UTF-8 (TextPay is ASCII)
@@ -959,4 +961,53 @@ func (r *readerRun) jsonCand(v interface{}) []int {
 	}
 	sort.Ints(c)
 	return c
+}
+
+// reasonOfClass builds a close reason of exactly n bytes (n >= 3; shorter
+// requests grow to the size of the special sequence) that contains the special
+// byte sequence of the class, padded with ASCII text. Valid classes put the
+// sequence in the middle, "trunc" puts an incomplete sequence at the very end.
+func reasonOfClass(class string, n int, ascii []byte) []byte {
+	var seq []byte
+	switch class {
+	case "u2":
+		seq = []byte("\u00e9") // C3 A9
+	case "u3":
+		seq = []byte("\u20ac") // E2 82 AC
+	case "u4":
+		seq = []byte("\U0001F600") // F0 9F 98 80
+	case "fffd":
+		seq = []byte{0xEF, 0xBF, 0xBD}
+	case "edge":
+		seq = []byte("\u0080\u07ff\u0800\uffff\U00010000\U0010FFFF")
+	case "trunc":
+		seq = []byte{0xE2, 0x82}
+	case "overlong":
+		seq = []byte{0xC0, 0x80}
+	case "surr":
+		seq = []byte{0xED, 0xA0, 0x80}
+	case "big":
+		seq = []byte{0xF4, 0x90, 0x80, 0x80}
+	case "cont":
+		seq = []byte{0x80}
+	default:
+		return ascii
+	}
+	if n < len(seq) {
+		n = len(seq)
+	}
+	if n > 123 {
+		n = 123
+	}
+	pad := n - len(seq)
+	if pad > len(ascii) {
+		pad = len(ascii)
+	}
+	if class == "trunc" {
+		return append(append([]byte{}, ascii[:pad]...), seq...)
+	}
+	h := pad / 2
+	out := append([]byte{}, ascii[:h]...)
+	out = append(out, seq...)
+	return append(out, ascii[h:pad]...)
 }
